@@ -22,4 +22,14 @@ UNITS = [
         'call_map': {'find_last_bit_set': 'flbs'},
         'functions': ['get_entry', 'grow'],
     },
+    {
+        'name': 'SeqlockGen',
+        'source': 'xenium/seqlock.hpp',
+        'class': 'seqlock',
+        'tu': '#include <xenium/seqlock.hpp>\nstruct XvBlob { char b[12]; };\n'
+              'template struct xenium::seqlock<XvBlob, xenium::policy::slots<2>>;\n',
+        'sizeof_params': {'XvBlob': 'sizeof_T'},
+        'constants': {'words': None},
+        'functions': ['is_write_pending'],
+    },
 ]
